@@ -2,14 +2,17 @@
 
    WHAT IS PROVED: (1) reflective facts on the regenerated xml table: bulk sets contain CR and NUL and every
    singled-out character; reads come first.  (2) chunk independence of the tokenizer's reference semantics (flat
-   queue, exact_errors = true) for the regenerated xml table — _partial: the run relation carries the side condition
-   [step_ok] (the reconsume flag is clear whenever a look-ahead state is entered), which is true of the xml table by
-   inspection (no `reconsume` targets MarkupDecl / AfterDoctypeName) but is not proved as an invariant here.
+   queue, exact_errors = true) for the regenerated xml table.  The run relation carries the side condition [step_ok]
+   (the reconsume flag is clear whenever a state whose body starts with eat() is entered: xml's eat does not look at
+   that flag); it is proved to be an INVARIANT of the interpreter on the regenerated table (TokIR/ChunkInv.v, two
+   decidable table checks: every step body starts with a consuming read or eat, no arm reconsumes into an eat state),
+   so that on every machine reachable from an initial one the relation IS the fuelled executable loop
+   (C15_run_relation_is_the_executable_loop).  The theorem keeps the suffix _partial because of what follows.
    NOT PROVED (tied by differential runs / oracles in the check): agreement of the chunked-queue interpreter with the
    reference semantics up to merging of character tokens, agreement with the Rust code, the tree-builder half, the
    normalisation law tree(x) = tree(normalise x). *)
 From Coq Require Import List NArith Bool.
-From HV Require Import TokIR.IR TokIR.Interp TokIR.Checks TokIR.Chunk Gen.GenXmlTok Inst.InstXmlTok Inst.InstChunk.
+From HV Require Import TokIR.IR TokIR.Interp TokIR.Checks TokIR.Chunk TokIR.ChunkInv Gen.GenXmlTok Inst.InstXmlTok Inst.InstChunk.
 Import ListNotations.
 
 Theorem C15_bulk_sets_adequate : sets_adequate xstate_beq false xml_table = [].
@@ -31,3 +34,30 @@ Print Assumptions C15_reference_semantics_chunk_independent_partial.
 Theorem C15_table_shapes : (forall s, shape xml_flavour (xml_step s) = true) /\ (forall s, no_eof (xml_step s) = true).
 Proof. split; [exact xml_shape_all|exact xml_no_eof_all]. Qed.
 Print Assumptions C15_table_shapes.
+
+(* the side condition of the run relation is an invariant: kept by every step, true of every initial machine, and on
+   J-machines the relation is the executable loop *)
+Theorem C15_step_keeps_invariant : forall ex simd ent c1 sk m m' r,
+  J xml_table m ->
+  step [] fq_next fq_peek (@app N) (fun q => q) fq_run1 xml_flavour ex xml_table simd ent c1 sk false m = (m', r) ->
+  J xml_table m'.
+Proof. exact xml_step_keeps_J. Qed.
+Print Assumptions C15_step_keeps_invariant.
+
+Theorem C15_initial_machine_invariant : forall s0 last bom q o k, J xml_table (mkmach (init_cfg s0 last bom) q o k).
+Proof. exact xml_J_init. Qed.
+Print Assumptions C15_initial_machine_invariant.
+
+Theorem C15_run_relation_is_the_executable_loop :
+  forall simd ent c1 sk fuel m m' r,
+  J xml_table m ->
+  run [] fq_next fq_peek (@app N) (fun q => q) fq_run1 xml_flavour true xml_table simd ent c1 sk false fuel m = (m', r) ->
+  (oruns xml_flavour true xml_table simd ent c1 sk m m' r /\ J xml_table m') \/ r = SPanic 98.
+Proof. exact xml_run_is_relation. Qed.
+Print Assumptions C15_run_relation_is_the_executable_loop.
+
+Theorem C15_feeding_keeps_invariant :
+  forall simd ent c1 sk inj cs m m',
+  feed_chunks xml_flavour true xml_table simd ent c1 sk inj m cs m' -> J xml_table m -> J xml_table m'.
+Proof. exact xml_feed_chunks_keeps_J. Qed.
+Print Assumptions C15_feeding_keeps_invariant.
